@@ -198,14 +198,17 @@ extern int mpt_axis_set(MPT_STRUCT(axis) *ax, const char *name, MPT_INTERFACE(co
 			ax->format &= ~MPT_ENUM(TransformLg);
 			ax->intv = 0;
 		}
-		if (len >= 0 || (len = src->_vptr->convert(src, 's', &l)) < 0 || len < 0 || !l) {
+		if (len >= 0) {
 			ax->format &= ~MPT_ENUM(TransformLg);
+			return 0;
 		}
-		else if (!strncasecmp(l, "log", 3)) {
-			ax->format |= MPT_ENUM(TransformLg);
-			ax->intv = 0;
+		/* no interval count, only the logarithmic keyword is valid text */
+		if (src->_vptr->convert(src, 's', &l) < 0 || !l || strncasecmp(l, "log", 3)) {
+			return len;
 		}
-		return len < 0 ? len : 0;
+		ax->format |= MPT_ENUM(TransformLg);
+		ax->intv = 0;
+		return 0;
 	}
 	if (!strcasecmp(name, "exp") || !strcasecmp(name, "exponent")) {
 		if (!src || !(len = src->_vptr->convert(src, 'n', &ax->exp))) {
